@@ -1,5 +1,7 @@
 import Falcon.Model.Hash
 import Falcon.Lemmas.HashStream
+import Mathlib.Data.Finset.Card
+import Mathlib.Data.Finset.Image
 
 /-!
 # C14 — HashToPoint is the specified rejection sampler (Algorithm 3)
@@ -93,6 +95,20 @@ theorem hash_512_is_prefix_of_1024 (msg : List Nat) (h5 : (hashToPoint msg 512).
   obtain ⟨k2, hk2⟩ := HashStream.hashToPoint_stable msg 1024 h10
   rw [← hk1 (max k1 k2) (Nat.le_max_left _ _), ← hk2 (max k1 k2) (Nat.le_max_right _ _)]
   exact prefix_512_of_1024 _
+
+/-- why the threshold is 5q: every residue r has exactly five accepted 16-bit words (r, r+q, …, r+4q), so the reduced
+    coefficient of an accepted word is uniform on [0, q) when the word is uniform -/
+theorem accepted_words_per_residue (r : Nat) (hr : r < 12289) :
+    ((Finset.range 61445).filter (fun t => t % 12289 = r)).card = 5 := by
+  have : (Finset.range 61445).filter (fun t => t % 12289 = r) = (Finset.range 5).image (fun k => r + 12289 * k) := by
+    ext t
+    simp only [Finset.mem_filter, Finset.mem_range, Finset.mem_image]
+    constructor
+    · rintro ⟨ht, hm⟩
+      exact ⟨t / 12289, by omega, by omega⟩
+    · rintro ⟨k, hk, rfl⟩
+      exact ⟨by omega, by omega⟩
+  rw [this, Finset.card_image_of_injective _ (fun a b h => by have h2 : r + 12289 * a = r + 12289 * b := h; omega), Finset.card_range]
 
 /-- non-vacuity: 61444 is accepted (as 61444 mod q = 12288), 61445 and 65535 are discarded -/
 example : loop [61445, 61444, 65535, 7, 12289] 3 = [12288, 7, 0] := by decide
